@@ -289,6 +289,17 @@ def gen_http():
     n_expect = len(re.findall(r"\.expect\(", body))
     urls = re.findall(r"format!\(\"\{\}(/\w+/)\{\}\"", src)
     base = re.findall(r"format!\(\"(http://[^\"]*)\"", src)
+    # publication semantics of serve_*: `entry(id).or_insert_with(..)` (first wins) or `insert(id, ..)` (last wins)
+    serve_bodies = [find_block(src, r"fn\s+serve_%s\s*\(" % k) for k in ("mesh", "image", "audio")]
+    # find_block returns the parameter-less first brace block, i.e. the function body
+    keep = [bool(re.search(r"\.entry\([^)]*\)\s*\.or_insert_with\(", b)) for b in serve_bodies]
+    over = [bool(re.search(r"\bmap\.insert\(", b)) for b in serve_bodies]
+    if all(keep) and not any(over):
+        overwrite = "false"
+    elif all(over) and not any(keep):
+        overwrite = "true"
+    else:
+        raise TranslateError("serve_* publication semantics not recognised: keep=%r overwrite=%r" % (keep, over))
     if len(order) != 3 or len(prefixes) != 3 or len(classes) != 3 or len(lookups) != 3:
         raise TranslateError("respond has an unexpected shape: %r %r %r %r" % (order, prefixes, classes, lookups))
     text = "/-! GENERATED by /verif/translate/translate.py from src/networking/assets/mod.rs — do not edit. -/\nnamespace BevySync\nnamespace Generated\n\n"
@@ -301,6 +312,8 @@ def gen_http():
     text += "def httpStatusCodes : List Nat := [%s]\n" % ", ".join(map(str, codes))
     text += "def httpServeUrlPaths : List String := [%s]\n" % ", ".join(lean_str(u) for u in urls)
     text += "def httpBaseUrlFormats : List String := [%s]\n" % ", ".join(lean_str(u) for u in base)
+    text += "/-- `serve_*`: false = `entry(id).or_insert_with(..)` (first publication wins), true = `insert` (last wins) -/\n"
+    text += "def httpServeOverwrites : Bool := %s\n" % overwrite
     text += "/-- escape hatches inside `respond`: (continue, break, return, unwrap, expect) -/\n"
     text += "def httpRespondExits : Nat × Nat × Nat × Nat × Nat := (%d, %d, %d, %d, %d)\n" % (
         n_continue, n_break, n_return, n_unwrap, n_expect)
